@@ -143,6 +143,8 @@ def check_wiring(ctx, case):
                         vec = ["0.25"] * n_all
                         if n_all > 1:
                             vec[1 + case["zero_pick"] % (n_all - 1)] = "0"
+                            # a tiny but positive prior is not a zero prior: that allele stays in the sampler
+                            vec[(1 + (case["zero_pick"] + 1) % (n_all - 1)) if n_all > 2 else 0] = "1e-09"
                         c[7] = ";".join([kv for kv in c[7].split(";") if not kv.startswith("AFP=")] + ["AFP=" + ",".join(vec)])
                         l = "\t".join(c)
                     lines.append(l)
